@@ -1897,6 +1897,14 @@ def run_psf(s, o):
     # not a function of the scene and are not judged (counted)
     with np.errstate(invalid='ignore'):
         err_undefined = (np.abs(col('qfit')) < 1e-6) | (col('x_err') == 0) | (col('y_err') == 0) | (col('flux_err') == 0)
+        # the same holds for nearly exact fits: a position error below a milli-pixel means a residual variance that
+        # is model-mismatch / rounding level (seen at thorough seed 5: x_err 2.8e-5 vs 2.6e-5 px, fwhm_err 3.4e-4 vs
+        # 2.2e-4 under translation while every fitted value agreed); rows of noisy scenes have errors of 1e-2..1e-1 px
+        err_undefined |= (col('x_err') < 1e-3) | (col('y_err') < 1e-3)
+        for cn in t.colnames:
+            if cn.endswith('_err') and cn not in ('x_err', 'y_err', 'flux_err') and cn[:-4] + '_fit' in t.colnames:
+                # free shape parameters: a relative error below 1e-3 is the same regime
+                err_undefined |= np.abs(col(cn)) < 1e-3 * np.abs(col(cn[:-4] + '_fit'))
     out['_err_undefined'] = err_undefined
     out['window_tie'] = bool(out['window_tie'] or ill.any())
     x, y = np.asarray(t['x_init'], float), np.asarray(t['y_init'], float)
